@@ -28,7 +28,24 @@ def _m(engine, technique, text, note):
     return {"engine": engine, "technique": technique, "text": text, "note": note}
 
 
+_HIST = ("Random histories (create, put in 13 payload classes sized to fill / wrap / grow the 64 KiB log, update with and without payload, delete, "
+         "refused calls, commit, drop+reopen with pending records, vacuum, doctor, batch mode) run against a real Memvid; a sequential reference "
+         "model is reconciled after every call (nothing or everything pending becomes visible) and compared frame by frame at sampled points, "
+         "after the final commit, after reopen and through a read-only handle. ")
+
 META = {
+    "C01": _m("E1", "online reference-model monitor over random operation histories on the real Memvid",
+              _HIST + "Judged: frame count, per-frame uri/status/role/parent/supersede links/timestamp, commit and reopen succeed, refused calls stay refused.",
+              "Crash-free executions only. Auto-checkpoint timing is not predicted, only its all-or-nothing effect. A history stops at its first violation."),
+    "C06": _m("E1", "identity monitor inside the history driver: next_frame_id() prediction + first-seen fingerprint per id",
+              _HIST + "Judged: next_frame_id() sampled before every put/update equals the id the document gets; frame_by_id(i).id == i; uri, stored checksum, timestamp (and stored length while active) first seen for an id never change across commit, reopen, delete, update, vacuum and doctor.",
+              "Vacuum legitimately drops the payload of inactive frames, so the stored length is part of the identity only while a frame is active."),
+    "C07": _m("E1", "content monitor inside the history driver: canonical payload, blob reader and stored checksum vs the bytes that were put",
+              _HIST + "Judged per active frame: stored whole => frame_canonical_payload == P, blob_reader bytes == P, blake3(file[offset..+len]) == checksum; chunked => document payload == concatenation of its chunk frames (and == normalized text for unstructured text).",
+              "Whether a put is chunked is discovered from the real frame table (and from preview_chunks for UTF-8), not predicted."),
+    "C19": _m("E1", "directory-listing monitor after every API call of the history driver; forbidden-sidecar probes",
+              _HIST + "Judged: after every call (Ok or Err) the directory holds exactly the .mv2 file; for each forbidden sidecar name create/open/open_read_only/doctor/verify must refuse and leave the directory unchanged.",
+              "$TMPDIR (Tantivy scratch) is pointed outside the directory. Files that exist only during a call are C02's concern."),
     "C05": _m("E5", "reference-model monitor over the real EmbeddedWal: bounded-exhaustive op sequences with state de-duplication + random histories; Miri in thorough",
               "Every operation sequence up to the stated depth over regions 96..512 bytes (boundary payload sizes relative to the head) is executed on a real file and compared, after every step, with a list model of the records appended since the last checkpoint; random histories cover 4 KiB / 64 KiB / 1 MiB regions. A loss, resurrection, reorder or wrong error kind is reported with the history that produces it.",
               "Held on the executed sequences only. The systematic part is complete for its alphabet and depth, not for all payload sizes. Scratch file on tmpfs; durability of the writes is C03's concern."),
